@@ -1204,14 +1204,16 @@ impl StorageEngine {
                     let len = list.len() as isize;
                     
                     let start = if start < 0 { (len + start).max(0) } else { start } as usize;
-                    let stop = if stop < 0 { (len + stop).max(0) } else { stop } as usize;
+                    // A stop index before the head leaves an empty range; clamped to 0 it would
+                    // still cover the first element
+                    let stop = if stop < 0 { len + stop } else { stop };
                     
                     let mut result = Vec::new();
                     for (i, item) in list.iter().enumerate() {
-                        if i >= start && i <= stop {
+                        if i >= start && (i as isize) <= stop {
                             result.push(item.clone());
                         }
-                        if i > stop {
+                        if (i as isize) > stop {
                             break;
                         }
                     }
@@ -1287,11 +1289,12 @@ impl StorageEngine {
                     let len = list.len() as isize;
                     
                     let start = if start < 0 { (len + start).max(0) } else { start } as usize;
-                    let stop = if stop < 0 { (len + stop).max(0) } else { stop } as usize;
+                    // (a stop index before the head keeps nothing)
+                    let stop = if stop < 0 { len + stop } else { stop };
                     
                     let mut new_list = VecDeque::new();
                     for (i, item) in list.iter().enumerate() {
-                        if i >= start && i <= stop {
+                        if i >= start && (i as isize) <= stop {
                             new_list.push_back(item.clone());
                         }
                     }
